@@ -2,6 +2,7 @@
 import json
 
 import chunk
+import chunkgeom
 import conn
 import fault
 import inmem
@@ -27,6 +28,7 @@ CHECKS = {
     "C13": pool.check_c13,
     "C14": multiconn.check,
     "C15": lifecycle.check,
+    "C16": chunkgeom.check,
     "C17": inmem.check,
     "C18": metrics.check,
     "C19": ketama.check,
